@@ -60,6 +60,14 @@ Theorem C09_source_operator_table : (forall c, QueryGen.cmp_operator (meth_of_cm
   QueryGen.c_and_operator = BAnd /\ QueryGen.c_or_operator = BOr /\ QueryGen.c_not_operator = BNot.
 Proof. exact gen_tables. Qed.
 
+(* evaluation as the SOURCE writes it - SimpleQuery.__call__ (a failing path resolver gives False), CompoundQuery.__call__ (both operands, then the
+   operator), the test closure (comparisons swallow their exceptions, other tests propagate theirs), REGENERATED from tinyflux/queries.py on every
+   run - is the model's eval, for every environment, query and point; with C09_denote: it is the documented meaning *)
+Theorem C09_source_evaluation_is_the_model : forall E q p, gen_eval E q p = eval E q p.
+Proof. exact gen_eval_eq. Qed.
+Theorem C09_source_evaluation_is_the_documented_meaning : forall E q p, wf_query E q -> gen_eval E q p = RB (denote E q p).
+Proof. exact gen_eval_denote. Qed.
+
 Print Assumptions C09_total.
 Print Assumptions C09_query_and_negation_partition.
 Print Assumptions C09_and_is_intersection.
@@ -75,3 +83,5 @@ Print Assumptions C09_or.
 Print Assumptions C09_missing_tag_false.
 Print Assumptions C09_none_order_false.
 Print Assumptions C09_source_operator_table.
+Print Assumptions C09_source_evaluation_is_the_model.
+Print Assumptions C09_source_evaluation_is_the_documented_meaning.
